@@ -271,15 +271,21 @@ def wave_case(res, case):
     if spos:
         rs, nxt = [], []
         live = [k for k, p in enumerate(spos) if len(c.s_nodes[p].outs) > 0]
+        Tcap = (None, 2.0, 1.25)[common.h64((case['nl'], 'Tcap')) % 3]    # settled capture, or a capture in the middle of the activity: the captured value differs from the final one
+        base_t = base
+        if Tcap is not None:
+            base_t, _ = run(); base_t.c_to_s(time=Tcap)
+            res.count('cfg_state_transfer_midcapture')
         for cuda in (False, True):
             sim, _ = run(cuda=cuda)
+            if Tcap is not None: sim.c_to_s(time=Tcap)
             sim.s_ppo_to_ppi(time=2.5)
             rs.append(np.asarray(sim.s)[0:3][:, [spos[k] for k in live]][:, :, :n].copy())
             sim.s_to_c(); sim.c_prop(seed=0); sim.c_to_s()
             nxt.append(ports(sim))
         res.evals += 1
         lp = [spos[k] for k in live]
-        exp0 = np.asarray(base.s)[2][lp][:, :n]; exp2 = np.asarray(base.s)[8][lp][:, :n]
+        exp0 = np.asarray(base_t.s)[2][lp][:, :n]; exp2 = np.asarray(base_t.s)[8][lp][:, :n]
         for nm, r in zip(('cpu', 'gpu'), rs):
             if not (np.array_equal(r[0], exp0) and np.all(r[1] == 2.5) and np.array_equal(r[2], exp2)):
                 res.violation(f'{key0}/ppo-to-ppi-{nm}', case, f's_ppo_to_ppi ({nm} path): state elements do not receive (previous final value, time, captured value) {nl}')
@@ -359,7 +365,7 @@ def wave_case(res, case):
 
 
 def finish(agg, tier):
-    need = ['cfg_opt', 'cfg_alloc', 'cfg_perm', 'cfg_sims', 'cfg_dataset', 'cfg_dataset_mixed', 'cfg_twoobjects', 'cfg_twoprop', 'cfg_decimal_delays', 'logic_two_objects', 'cfg_abuf', 'cfg_reuse', 'logic_cases', 'logic_bench_cut_ports']
+    need = ['cfg_opt', 'cfg_alloc', 'cfg_perm', 'cfg_sims', 'cfg_dataset', 'cfg_dataset_mixed', 'cfg_twoobjects', 'cfg_twoprop', 'cfg_decimal_delays', 'logic_two_objects', 'cfg_abuf', 'cfg_reuse', 'logic_cases', 'logic_bench_cut_ports', 'cfg_state_transfer_midcapture']
     missing = [k for k in need if not agg.counters.get(k)]
     if missing: raise common.HarnessError(f'vacuity guard: {missing} zero')
     return {}
